@@ -1,3 +1,4 @@
+#![allow(dead_code, unused_mut)]
 mod checks;
 mod gprint;
 mod model;
@@ -53,6 +54,8 @@ fn main() {
         "C16" => checks::c16::run(&tier, only.as_ref()),
         "C17" => checks::c17::run(&tier, only.as_ref()),
         "C18" => checks::c18::run(&tier, only.as_ref()),
+        "C19" => checks::c19::run(&tier, only.as_ref()),
+        "C20" => checks::c20::run(&tier, only.as_ref()),
         "C08" => checks::c08::run(&tier, only.as_ref()),
         "C03" => checks::c03::run(&tier, only.as_ref()),
         _ => {
